@@ -23,6 +23,14 @@ def is_fault_site(op):
     return op[0] in FAULT_KINDS or (op[0] == "lock" and op[1] == "flock")
 
 
+def site_class(sop):
+    """kind:name:path-class of a trace operation (stable under insertion of unrelated operations)."""
+    def pc(x):
+        parts = str(x).split("/")
+        return "/".join(parts[:2]) if parts[0] == "refs" or (len(parts) > 1 and parts[1] == "tmp") else parts[0]
+    return ":".join([sop[0], sop[1]] + [pc(x) + ("_delete" if str(x).endswith("_delete") else "") for x in sop[2:]])
+
+
 class FWorker(env.BaseWorker):
     def __init__(self, root, snapshots=False, fault=None):
         super().__init__("T1")
